@@ -103,3 +103,52 @@ def normalise_file(src, dst):
             g.write(json.dumps(e, separators=(",", ":")) + "\n")
             n += 1
     return n
+
+
+def normalise_discovery(events):
+    """Normalised events for Trace_Discovery.tla."""
+    sent = {}
+    for e in events:
+        ev = e["ev"]
+        t = us(e.get("t", 0))
+        if ev == "Reset":
+            sent = {}
+            yield {"ev": "Reset", "t": 0}
+        elif ev == "Participant":
+            yield {"ev": "Participant", "t": t, "net": e["net"], "domain": int(e.get("domain") or 0), "tag": e.get("tag") or ""}
+        elif ev in ("CreateWriter", "CreateReader"):
+            yield {"ev": ev, "t": t, "net": e["net"], "q": qos_norm(e.get("qos")), "ok": 1 if e["res"] == "Ok" else 0}
+        elif ev == "DeleteReader":
+            yield {"ev": "DeleteReader", "t": t, "r": e["r"]}
+        elif ev == "SetReaderQos":
+            yield {"ev": "SetReaderQos", "t": t, "r": e["r"], "q": qos_norm(e.get("qos")), "ok": 1 if e["res"] == "Ok" else 0}
+        elif ev == "Silence":
+            yield {"ev": "Silence", "t": t, "net": e["net"]}
+        elif ev == "Unsilence" or ev == "Heal":
+            yield {"ev": "Unsilence", "t": t}
+        elif ev == "DeleteParticipant":
+            yield {"ev": "DeleteParticipant", "t": t, "net": e.get("net", -1)}
+        elif ev == "Ignore":
+            yield {"ev": "Ignore", "t": t, "net": e["net"], "target": e["target_net"]}
+        elif ev == "Send":
+            has = any(s["k"] in ("DATA", "DATAFRAG") for s in e["subs"])
+            hb = any(s["k"] in ("DATA", "DATAFRAG", "HB") for s in e["subs"])
+            sent[e["id"]] = (e["from"], has)
+            if not e.get("meta") and hb and "dupof" not in e:
+                yield {"ev": "SendUser", "t": t, "from": e["from"], "to": e["to"], "meta": 0, "hasdata": 1}
+        elif ev == "Deliver":
+            fr = sent.get(e["id"])
+            if fr and fr[1]:
+                yield {"ev": "DeliverData", "t": t, "from": fr[0], "to": e["to"]}
+        elif ev in ("PubStatus", "SubStatus"):
+            i = e["w"] if ev == "PubStatus" else e["r"]
+            if "err" in e:
+                yield {"ev": ev, "t": t, "i": i, "err": 1, "cur": 0, "tot": 0, "curChg": 0, "totChg": 0, "n": 0}
+            else:
+                yield {"ev": ev, "t": t, "i": i, "err": 0, "cur": e["cur"], "tot": e["tot"], "curChg": e["curChg"], "totChg": e["totChg"], "n": e["n"]}
+        elif ev == "Discovered":
+            yield {"ev": "Discovered", "t": t, "net": e["net"], "knows": [int(x) for x in e["knows"]]}
+        elif ev == "SimError":
+            yield {"ev": "SimError", "t": 0, "err": e["err"]}
+        else:
+            continue
